@@ -213,3 +213,98 @@ pub fn main(args: &[String]) -> i32 {
         "max_cells": maxcells, "panics": panics, "steps_logged": steps, "depth": spec.depth, "truncated": truncated, "frontier_left": queue.len()}));
     0
 }
+
+// ---------------------------------------------------------------------------------------
+/// `pfv heapwalk <spec.json> <out.ndjson>`: random walks of the real generator (the harness
+/// picks among the opcodes the generator itself enables, with extra weight on the
+/// aliasing-relevant ones), every aliasing-relevant transition written with the heap
+/// before and after it for TraceHeap.tla; cycle / leak measured at the end of each walk.
+#[derive(Deserialize)]
+struct WalkSpec {
+    cfg: Cfg,
+    walks: usize,
+    steps: usize,
+    ops: Vec<u8>,
+    seed: u64,
+    /// weight of an aliasing-relevant opcode relative to any other enabled opcode
+    #[serde(default)]
+    bias: usize,
+}
+
+pub fn walk(args: &[String]) -> i32 {
+    use rand::{Rng, SeedableRng};
+    let spec: WalkSpec = serde_json::from_str(&std::fs::read_to_string(&args[0]).expect("read")).expect("parse");
+    std::panic::set_hook(Box::new(|_| {}));
+    let mut out = std::io::BufWriter::new(std::fs::File::create(&args[1]).expect("create"));
+    let cfg = &spec.cfg;
+    let heap_ops: Vec<OpcodeKind> = spec.ops.iter().filter_map(|b| op_by_byte(*b)).collect();
+    {
+        let mut g = fresh(cfg);
+        for op in &heap_ops {
+            if g.verif_can_emit(*op) { let _ = force(&mut g, *op, 1); }
+        }
+        let mut g2 = build_generator(cfg, Some(1));
+        let _ = g2.generate();
+    }
+    let mut rng = rand_chacha::ChaCha8Rng::seed_from_u64(spec.seed);
+    let (mut steps, mut logged, mut cyc, mut leaks, mut maxcells, mut panics) = (0usize, 0usize, 0usize, 0usize, 0usize, 0usize);
+    for w in 0..spec.walks {
+        tick(|| format!("heapwalk walk {}", w));
+        let mut path: Vec<St> = Vec::new();
+        let mut g = fresh(cfg);
+        for k in 0..spec.steps {
+            let enabled = g.verif_valid_opcodes();
+            if enabled.is_empty() { break; }
+            let weights: Vec<usize> = enabled.iter().map(|o| if heap_ops.contains(o) { spec.bias.max(1) } else { 1 }).collect();
+            let total: usize = weights.iter().sum();
+            let mut r = rng.random_range(0..total);
+            let mut op = enabled[0];
+            for (o, wt) in enabled.iter().zip(&weights) {
+                if r < *wt { op = *o; break; }
+                r -= wt;
+            }
+            let seed = 1 + (rng.random::<u32>() as u64 % 1000);
+            let is_heap = heap_ops.contains(&op);
+            let mut tracker = verif::HeapTracker::default();
+            let pre = if is_heap { Some(tracker.snapshot(&g)) } else { None };
+            let res = std::panic::catch_unwind(std::panic::AssertUnwindSafe(|| force(&mut g, op, seed)));
+            let bytes = match res {
+                Ok(Ok(b)) => b,
+                Ok(Err(_)) => break,
+                Err(_) => { panics += 1; std::mem::forget(g); g = fresh(cfg); break; }
+            };
+            steps += 1;
+            path.push(St { op, seed, byte0: bytes.first().copied().unwrap_or(0), key: get_key(op, &bytes) });
+            if let Some(pre) = pre {
+                let post = tracker.snapshot(&g);
+                maxcells = maxcells.max(post.cells.len());
+                logged += 1;
+                writeln!(out, "{}", json!({
+                    "t": "step", "P": cfg.p, "op": op.as_u8(), "byte": bytes.first().copied().unwrap_or(0),
+                    "key": get_key(op, &bytes), "pre": snap_json(&pre), "post": snap_json(&post), "cycle": post.cycle,
+                    "walk": w, "at": k,
+                    "path": if post.cycle { path.iter().map(|s| s.byte0).collect::<Vec<u8>>() } else { Vec::new() },
+                })).unwrap();
+            }
+        }
+        let snap = verif::heap_snapshot(&g);
+        drop(g);
+        let mut leaked = leaked_by(cfg, &path);
+        if leaked != 0 { leaked = leaked_by(cfg, &path); }
+        if snap.cycle { cyc += 1; }
+        if leaked != 0 { leaks += 1; }
+        if snap.cycle || leaked != 0 {
+            writeln!(out, "{}", json!({
+                "t": "node", "P": cfg.p, "path": path.iter().map(|s| s.byte0).collect::<Vec<u8>>(),
+                "claimed": path.iter().map(|s| s.op.as_u8()).collect::<Vec<u8>>(),
+                "keys": path.iter().map(|s| s.key).collect::<Vec<i64>>(),
+                "seeds": path.iter().map(|s| s.seed.to_string()).collect::<Vec<String>>(),
+                "cycle": snap.cycle, "leaked": leaked, "heap": snap_json(&snap),
+            })).unwrap();
+        }
+    }
+    out.flush().unwrap();
+    println!("{}", json!({"P": cfg.p, "nodes": spec.walks, "trials": steps, "with_cycle": cyc, "leaking": leaks,
+        "max_cells": maxcells, "panics": panics, "steps_logged": logged, "depth": spec.steps, "truncated": false, "frontier_left": 0}));
+    0
+}
